@@ -291,7 +291,16 @@ SIGNATURES = {"uf-bool-argument-model-error": sig_boolarg,
               "get-assignment-prints-unknown": sig_assignment_unknown,
               "get-assignment-stale-literal-after-pop": sig_assignment_after_pop,
               "non-incremental-model-of-unconstrained-theory-atom": sig_nonincr_model,
-              "ghost-vars-theory-combination-wrong-sat": sig_wrong_sat(sigs.ghost_combination_wrong_sat),
+              "ghost-vars-theory-combination-wrong-sat": lambda c, r: sig_wrong_sat(sigs.ghost_combination_wrong_sat)(c, r) or (
+                  sigs.is_ghost(c) and str((r.detail or {}).get("what", "")).split(":")[0] in (
+                      "model-falsifies-assertion", "value-differs-from-model", "assignment-differs-from-model")),
+              "lookahead-three-assertion-levels": lambda c, r: sigs.lookahead_deep(c, (r.detail or {}).get("cmd_index")) and str(
+                  (r.detail or {}).get("what", "")).split(":")[0] in ("model-falsifies-assertion", "model-of-unsat-set",
+                                                                      "value-differs-from-model", "assignment-differs-from-model"),
+              "uf-bool-argument-model-wrong": lambda c, r: sigs.has_boolarg_uf(c) and str((r.detail or {}).get("what", "")).split(":")[0] in (
+                  "model-falsifies-assertion", "value-differs-from-model", "unparsable-model", "model-shape"),
+              "uf-arith-model-after-pop": lambda c, r: sigs.uf_arith_after_pop(c, (r.detail or {}).get("cmd_index")) and str(
+                  (r.detail or {}).get("what", "")).split(":")[0] in ("model-falsifies-assertion", "value-differs-from-model"),
               "uf-bool-argument-theory-combination-wrong-sat": sig_wrong_sat(sigs.boolarg_combination_wrong_sat)}
 
 
